@@ -267,7 +267,7 @@ def concretize(rec, state):
     """Turn an rng-driven record into one with the explicit schedule it produced (replay = follow it verbatim)."""
     if rec.get("schedule") is not None:
         return rec
-    r = state["tp"].run(rec["config"].get("hashseed", 0), {"record": rec}, timeout=90)
+    r = state["tp"].run(rec["config"].get("hashseed", 0), {"record": rec}, timeout=150)
     if "schedule" not in r:
         return rec
     rec = copy.deepcopy(rec)
@@ -286,13 +286,15 @@ def execute(record, state):
     cfg = record["config"]
     hs = cfg.get("hashseed", 0)
     scripts = record["scripts"]
-    r = tp.run(hs, {"record": record, "log_events": bool(cfg.get("log_events"))}, timeout=90)
+    r = tp.run(hs, {"record": record, "log_events": bool(cfg.get("log_events"))}, timeout=150)
     faults = {"preemptions": 0, "forced_switch_on_lock": 0, "gc_injected": 0, "starvation_pct": 0, "hashseed_nonzero": 1 if hs else 0}
     probes = {"switch_in_cold_code": 0, "switch_inside_dialect_class_init": 0, "switch_inside_import": 0, "switch_inside_dispatch_build": 0,
               "switch_inside_optimizer_getattr": 0, "parked_on_import_lock": 0, "parked_on_other_lock": 0, "two_threads_same_cold_dialect": 0}
     if r.get("timeout"):
-        v = {"oracle": "O5-liveness", "cls": "wall-timeout", "step": 0, "detail": "run did not finish within the wall limit", "sites": []}
-        return {"violation": v, "digest": "timeout", "sig": "timeout", "nontrivial": True, "steps": 0, "faults": faults, "probes": probes, "population": "faulted"}
+        # A wall-clock limit depends on machine load, so it is never an oracle: the run is discarded and counted by the
+        # driver (runs_discarded_by_resource_guard). Hangs the simulator can see are reported deterministically instead:
+        # "all live threads parked" (O5-deadlock) and the step budget (O5-liveness).
+        return {"aborted": "wall-timeout"}
     if "results" not in r:
         raise common.HarnessError("child failed: %s" % json.dumps(r)[:600])
     for k in probes:
